@@ -15,14 +15,19 @@
    Hypotheses: [head_ok] / [records_ok] — record-type names are distinct valid identifiers,
    their keys distinct valid strings; [vok rc cfg 0 v] — strings are valid UTF-8, sizes and
    nesting within the limits [rc], map keys one-event keyable values that stay distinct,
-   emitted field names distinct, record values keep what their type declares, no Edge;
-   [descr cfg v] — no Edge, no bool slice longer than 8, records keep what their type declares,
-   no signalling float32 NaN; [supported] — [vok] without the Edge and record restrictions.
+   emitted field names distinct, values of a registered record type are of that type, no Edge;
+   [descr cfg v] — no Edge, no signalling float32 NaN, values of a registered record type are
+   of that type; [supported] — [vok] without the Edge restriction.
 
-   The code violates the property in eight ways (four without recursion support, four with it);
+   History: the earlier version of this file refuted the property on eight defect classes.
+   Three are repaired in /repo and are theorems now, their witnesses pinned below and in the
+   harness: bool slices longer than 8 (734b6c6), records omitting a declared field (8413af6),
+   arrays panicking under recursion support (7f07b92).  Five remain open: types.Edge without
+   its end event and signalling float32 NaNs (without recursion support); marker on marker,
+   marked container inside a marked container, slices sharing their start address (with it).
    [C05_full] is the whole property, each [_refuted] theorem derives its negation from one
-   concrete witness of one defect class, and [C05_partial] is the property for the fragment
-   that excludes exactly those classes (recursion support off, [vok], [descr]). *)
+   concrete witness of one open class, and [C05_partial] is the property for the fragment that
+   excludes exactly those classes (recursion support off, [vok], [descr]). *)
 From CE Require Import Model.Iterate Proofs.IterateProofs.
 Open Scope N_scope.
 
@@ -58,14 +63,26 @@ Theorem C05_typed_array_elements :
 Proof. exact read_nums. Qed.
 Print Assumptions C05_typed_array_elements.
 
-(* Bool slices of up to 8 elements: bit i of the byte is element i. *)
-Theorem C05_bool_array_bits_upto8 :
-  forall l : list bool, (length l <= 8)%nat -> read_array AT_Bit (len l) (pack_bools l) = Some (DBits l).
-Proof. exact read_bools_small. Qed.
-Print Assumptions C05_bool_array_bits_upto8.
+(* Bool slices and arrays of every length: bit (i mod 8) of byte (i / 8) is element i. *)
+Theorem C05_bool_array_bits :
+  forall l : list bool, len l < two64 -> read_array AT_Bit (len l) (pack_bools l) = Some (DBits l).
+Proof. exact read_bools. Qed.
+Print Assumptions C05_bool_array_bits.
 
-(* The bit layout asked of bool arrays (element i in bit i mod 8 of byte i / 8) is the layout of
-   the packing the loop was meant to perform, for every length: [pack_bits] reads back exactly. *)
+(* The iteration always runs to completion (the model has no panic left: arrays under recursion
+   support were the one), for every configuration and value, with or without recursion support. *)
+Theorem C05_iterate_completes :
+  forall (cfg : icfg) (root : option gval), snd (iterate_outcome cfg root) = true.
+Proof. exact iterate_completes. Qed.
+Print Assumptions C05_iterate_completes.
+
+(* The loop of iterateSliceOrArrayBool is the packing by chunks of eight, which reads back exactly. *)
+Theorem C05_bool_loop_is_chunk_packing :
+  forall (k : nat) (v : list bool) (isrc : nat), pack_bools_loop v isrc k = pack_bits (skipn isrc v) k.
+Proof. exact pack_loop_eq. Qed.
+Print Assumptions C05_bool_loop_is_chunk_packing.
+
+(* ... and that packing (element i in bit i mod 8 of byte i / 8) reads back exactly, for every length *)
 Theorem C05_bit_layout_of_intended_packing :
   forall (k : nat) (v : list bool),
     (length v <= 8 * k)%nat -> (8 * k < length v + 8)%nat ->
@@ -93,16 +110,6 @@ Definition C05_full : Prop :=
              end
         else read_doc (iterate cfg root) = Some (canon_root cfg root)).
 
-(* defect: []bool longer than 8 repeats the first byte's elements (iterateSliceOrArrayBool) *)
-Theorem C05_bool_slice_refuted : ~ C05_full.
-Proof. exact full_refuted_bool_slice. Qed.
-Print Assumptions C05_bool_slice_refuted.
-Theorem C05_bool_slice_witness :
-  read_doc (iterate cfg_plain (Some w_bool9)) = Some (DBits [false; false; false; false; false; false; false; false; false])
-  /\ canon cfg_plain w_bool9 = DBits [false; false; false; false; false; false; false; false; true].
-Proof. exact bool9_misdescribed. Qed.
-Print Assumptions C05_bool_slice_witness.
-
 (* defect: types.Edge is emitted without its end-container event (iterateEdge) *)
 Theorem C05_edge_refuted : ~ C05_full.
 Proof. exact full_refuted_edge. Qed.
@@ -113,31 +120,10 @@ Theorem C05_edge_witness :
 Proof. exact edge_rejected. Qed.
 Print Assumptions C05_edge_witness.
 
-(* defect: a record value omits an empty field that its record type declares (newRecordIterators) *)
-Theorem C05_record_refuted : ~ C05_full.
-Proof. exact full_refuted_record. Qed.
-Print Assumptions C05_record_refuted.
-Theorem C05_record_witness :
-  head_ok default_rcfg cfg_record = true /\ supported default_rcfg cfg_record 0 w_record = true
-  /\ iterate cfg_record (Some w_record)
-     = [EBeginDoc; EVersion 0; ERecordType [114]; EStringArray AT_String [97]; EStringArray AT_String [98]; EEnd;
-        ERecord [114]; EInt 1; EEnd; EEndDoc]
-  /\ accepts_document default_rcfg (iterate cfg_record (Some w_record)) = false.
-Proof. exact record_rejected. Qed.
-Print Assumptions C05_record_witness.
-
 (* defect: a signalling float32 NaN reaches the receiver quiet (reflect.Value.Float) *)
 Theorem C05_float32_snan_refuted : ~ C05_full.
 Proof. exact full_refuted_float32_snan. Qed.
 Print Assumptions C05_float32_snan_refuted.
-
-(* defect (recursion support): an array iterated as a list panics in TryAddLocalReference *)
-Theorem C05_array_recursion_refuted : ~ C05_full.
-Proof. exact full_refuted_array_recursion. Qed.
-Print Assumptions C05_array_recursion_refuted.
-Theorem C05_array_recursion_witness : iterate_outcome cfg_rec (Some w_array) = ([EBeginDoc; EVersion 0], false).
-Proof. exact array_panics. Qed.
-Print Assumptions C05_array_recursion_witness.
 
 (* defect (recursion support): a shared pointer to a shared pointer gives marker, marker *)
 Theorem C05_marker_on_marker_refuted : ~ C05_full.
@@ -167,11 +153,44 @@ Theorem C05_same_base_slices_witness :
 Proof. exact same_base_misdescribed. Qed.
 Print Assumptions C05_same_base_slices_witness.
 
-(* ---- the property on the fragment without those classes ---------------------------------- *)
+(* ---- repaired classes: the former witnesses, pinned ---------------------------------------- *)
 
-(* Excluded: recursion support (four defect classes above; its general statement is not proved),
-   types.Edge, bool slices longer than 8, records that omit a declared field, signalling float32
-   NaNs; map keys are restricted to one-event keyable values (see [vok]). *)
+(* []bool of length 9, only the last element true: second byte 1 (was 0) *)
+Theorem C05_bool_slice_pinned :
+  iterate cfg_plain (Some w_bool9) = [EBeginDoc; EVersion 0; EArray AT_Bit 9 [0; 1]; EEndDoc]
+  /\ read_doc (iterate cfg_plain (Some w_bool9)) = Some (canon cfg_plain w_bool9)
+  /\ canon cfg_plain w_bool9 = DBits [false; false; false; false; false; false; false; false; true].
+Proof. exact bool9_described. Qed.
+Print Assumptions C05_bool_slice_pinned.
+
+(* a record whose second field is the empty string: the value is carried (was omitted: the
+   validator then rejected the record for having 1 of 2 values) *)
+Theorem C05_record_pinned :
+  iterate cfg_record (Some w_record)
+  = [EBeginDoc; EVersion 0; ERecordType [114]; EStringArray AT_String [97]; EStringArray AT_String [98]; EEnd;
+     ERecord [114]; EInt 1; EStringArray AT_String []; EEnd; EEndDoc]
+  /\ accepts_document default_rcfg (iterate cfg_record (Some w_record)) = true
+  /\ read_doc (iterate cfg_record (Some w_record))
+     = Some (DMap [(DString [97], DScalar (EInt 1)); (DString [98], DString [])])
+  /\ canon cfg_record w_record = DMap [(DString [97], DScalar (EInt 1)); (DString [98], DString [])].
+Proof. exact record_accepted. Qed.
+Print Assumptions C05_record_pinned.
+
+(* an array iterated as a list under recursion support (used to panic after the version event) *)
+Theorem C05_array_recursion_pinned :
+  iterate_outcome cfg_rec (Some w_array)
+  = ([EBeginDoc; EVersion 0; EList; EStringArray AT_String [97]; EEnd; EEndDoc], true)
+  /\ accepts_document default_rcfg (iterate cfg_rec (Some w_array)) = true
+  /\ described_rec (iterate cfg_rec (Some w_array)) = Some (canon cfg_rec w_array).
+Proof. exact array_completes. Qed.
+Print Assumptions C05_array_recursion_pinned.
+
+(* ---- the property on the fragment without the open classes ------------------------------- *)
+
+(* Excluded: recursion support (three open defect classes above; its general statement is not
+   proved beyond completion), types.Edge, signalling float32 NaNs; map keys are restricted to
+   one-event keyable values (see [vok]).  Bool slices of every length and records with empty
+   fields are inside the fragment. *)
 Theorem C05_partial :
   forall (rc : rcfg) (cfg : icfg) (root : option gval),
     expected_version rc = 0 -> head_ok rc cfg = true -> records_ok cfg = true ->
@@ -190,7 +209,7 @@ Print Assumptions C05_partial.
 (* ---- non-vacuity -------------------------------------------------------------------------- *)
 
 (* a struct with tags (order, omit), a list of mixed values, a map, a node, a nested record of a
-   registered type: inside the fragment, at the default limits *)
+   registered type with an empty field: inside the fragment, at the default limits *)
 Example C05_hypotheses_satisfiable :
   head_ok default_rcfg ex_cfg = true /\ records_ok ex_cfg = true
   /\ vok default_rcfg ex_cfg 0 ex_value = true /\ descr ex_cfg ex_value = true
